@@ -23,7 +23,7 @@ PID = "C12"
 SPEC = os.path.join(VERIF, "spec")
 G = 1024
 IOTRACE = os.path.join(VERIF, "harness", "iotrace.so")
-JOBS = max(2, min(6, NPROC // 3))
+JOBS = max(2, min(12, NPROC - 4))
 DEVS = dict(DevByteOffTwice="FALSE", DevAbsTiling="FALSE", DevChanUnits="FALSE", DevReopenFull="FALSE", DevExtendShort="FALSE")
 
 # ---------------------------------------------------------------------------------------------- crc32c (own)
@@ -305,16 +305,18 @@ def run_driver(drv, b, script_lines, work, tag):
     return out, p.returncode, p.stderr.decode("utf8", "replace")[-600:]
 
 
-def trace_cfg(work, n, literal=()):
+def trace_cfg(work, n, literal=(), invariants=None):
     """literal = names of Dev* constants switched on: the trace is then only checked to be a behaviour of the literal
     (pinned-tree) model -- the property invariants are not listed, the deviation is what breaks them."""
-    cfg = os.path.join(work, "Trace_UndoIo_%d%s.cfg" % (n, "".join("_" + d for d in literal)))
+    if invariants is None:
+        invariants = not literal
+    cfg = os.path.join(work, "Trace_UndoIo_%d%s%s.cfg" % (n, "".join("_" + d for d in literal), "_inv" if invariants else ""))
     consts = dict(N=n, MaxLen=n + 8, TdbSizes="{1}", BlkSizes="{1}", Offsets="{0}", KpbPerG=64, MaxExt=512, MaxOps=1000000,
                   MaxRuns=1000000, MaxSpan=1)
     consts.update(DEVS)
     for d in literal:
         consts[d] = "TRUE"
-    T.write_cfg(cfg, spec="TraceSpec", constants=consts, invariants=[] if literal else ["U1", "U2", "U3", "R1", "R2", "Layout"],
+    T.write_cfg(cfg, spec="TraceSpec", constants=consts, invariants=["U1", "U2", "U3", "R1", "R2", "Layout"] if invariants else [],
                 postcondition="TraceAccepted")
     return cfg
 
@@ -323,14 +325,40 @@ def trace_cfg(work, n, literal=()):
 # cannot be a fix: commit): known findings.  A history the repaired specification rejects is attributed to a deviation iff it
 # is, line by line, a behaviour of the specification with exactly that deviation switched on.
 KNOWN_DEVS = (("DevAbsTiling",), ("DevChanUnits",), ("DevAbsTiling", "DevChanUnits"))
+CONF_DEVS = ("DevAbsTiling", "DevChanUnits")
 
 
-def attribute_api(trace, n, work):
-    for devs in KNOWN_DEVS:
-        rej, matched, inv, tail, _ = tracecheck.confirm(trace, os.path.join(SPEC, "Trace_UndoIo.tla"), trace_cfg(work, n, devs), work)
-        if not rej:
-            return devs
-    return None
+def recording_part(trace):
+    """lines up to (not including) the first e2undo / damage line: the part of a history in which the undo file is written"""
+    for i, ln in enumerate(trace):
+        if ln.startswith(('{"e":"e2undo"', '{"e":"flip"', '{"e":"unflip"', '{"e":"tamper"')):
+            return trace[:i]
+    return trace
+
+
+def attribute_api_batch(failing, traces, n, work):
+    """failing: [(behaviour index, line)] = histories the conformance model (both unrepaired deviations on) explains line by
+    line but in which a property invariant fails.  With the deviations off the model satisfies the invariants in every behaviour
+    (model_check), so such a failure is a deviation showing; it is named after the smallest combination whose literal model
+    still explains the recording part of the history."""
+    cand = [(bi, recording_part(traces[bi])) for bi, k in failing]
+    out = {}
+    for devs in KNOWN_DEVS[:-1]:
+        todo = [(bi, rec) for bi, rec in cand if bi not in out]
+        if not todo:
+            break
+        sub = os.path.join(work, "attr_" + "_".join(devs)); os.makedirs(sub, exist_ok=True)
+        res = tracecheck.validate([rec for _, rec in todo], os.path.join(SPEC, "Trace_UndoIo.tla"), trace_cfg(work, n, devs, invariants=False), sub,
+                                  chunk_lines=1, timeout=600, jobs=JOBS)
+        if res["broken"]:
+            die_broken("TLC failed while attributing an API history to a known deviation: %s" % res["broken"][0]["error"])
+        rejected = {f["behaviour"] for f in res["failures"]}
+        for j, (bi, rec) in enumerate(todo):
+            if j not in rejected:
+                out[bi] = devs
+    for bi, rec in cand:
+        out.setdefault(bi, KNOWN_DEVS[-1])
+    return out
 
 
 def api_nontrivial(lines):
@@ -395,7 +423,7 @@ def api_conformance(ev, vd, tier, work, b, drv, rng):
         idx = [i for i in sorted(traces) if behs[i][0] == n]
         if not idx:
             continue
-        cfg = trace_cfg(work, n)
+        cfg = trace_cfg(work, n, CONF_DEVS, invariants=True)
         sub = os.path.join(work, "tv%d" % n); os.makedirs(sub, exist_ok=True)
         tbs = [traces[i] for i in idx]
         tot_lines += sum(len(t) for t in tbs)
@@ -405,8 +433,19 @@ def api_conformance(ev, vd, tier, work, b, drv, rng):
             die_broken("TLC failed on an API trace chunk: %s\n%s" % (res["broken"][0]["error"], res["broken"][0]["out_tail"][-1500:]))
         ev.cov["states"] += res["distinct"]; ev.cov["transitions"] += res["generated"]
         nval += len(tbs)
-        for f in res["failures"]:
-            bi = idx[f["behaviour"]]
+        # the conformance model is the specification WITH the unrepaired deviations on (what the tree does): a history it
+        # rejects is a VIOLATION; a history it explains but in which a property invariant fails is the known finding showing
+        failing = [(idx[f["behaviour"]], f["line_in_behaviour"]) for f in res["failures"]]
+        invfail = [(idx[f["behaviour"]], f["line_in_behaviour"]) for f in res["failures"] if f["violated"]]
+        known = attribute_api_batch(invfail, traces, n, sub)
+        for bi, devs in known.items():
+            nfail += 1
+            for d in devs:
+                vd.violation(d, "API history follows the literal model with %s" % "+".join(devs), {"kind": "api", "n": behs[bi][0], "script": api_script("DEV", "UNDO", *behs[bi])})
+            ev.cov["api_histories_taking_known_deviation"] = ev.cov.get("api_histories_taking_known_deviation", 0) + 1
+        for bi, _ in failing:
+            if bi in known:
+                continue
             rej, matched, inv, tail, _ = tracecheck.confirm(traces[bi], os.path.join(SPEC, "Trace_UndoIo.tla"), cfg, sub)
             if not rej:
                 continue
@@ -414,12 +453,6 @@ def api_conformance(ev, vd, tier, work, b, drv, rng):
             k = matched if matched is not None else 0
             line = traces[bi][k] if k < len(traces[bi]) else "(end)"
             what = ("invariant %s violated" % inv) if inv else "the real code left the specification"
-            devs = attribute_api(traces[bi], behs[bi][0], sub)
-            if devs:
-                for d in devs:
-                    vd.violation(d, "API history follows the literal model with %s" % "+".join(devs), {"kind": "api", "n": behs[bi][0], "script": api_script("DEV", "UNDO", *behs[bi])})
-                ev.cov["api_histories_taking_known_deviation"] = ev.cov.get("api_histories_taking_known_deviation", 0) + 1
-                continue
             vd.violation("api:%s" % (inv or "rejected"), "%s at line %d of an API history: %s" % (what, k, line[:240]),
                          {"kind": "api", "n": behs[bi][0], "script": api_script("DEV", "UNDO", *behs[bi]), "trace": traces[bi],
                           "first_unmatched_line": k, "tlc_tail": tail[-1500:]})
@@ -1191,7 +1224,7 @@ def replay(path):
             tl = open(out).read().splitlines()
             if rc != 0:
                 print("driver exit %d: %s" % (rc, err)); print("VIOLATION property=%s replay=%s" % (PID, path)); return 1
-            cfg = trace_cfg(work, rp["n"])
+            cfg = trace_cfg(work, rp["n"], CONF_DEVS, invariants=True)
             rej, matched, inv, tail, _ = tracecheck.confirm(tl, os.path.join(SPEC, "Trace_UndoIo.tla"), cfg, work)
             if rej:
                 print("first unmatched line %s (%s): %s" % (matched, inv, tl[matched][:300] if matched is not None and matched < len(tl) else "?"))
